@@ -77,7 +77,8 @@ CS(f, m) ==   \* callsite_enabled: "never" | "sometimes" | "always"
 RECURSIVE Hint(_)
 Hint(f) ==
   CASE f.k = "level"   -> f.l
-    [] f.k = "targets" -> MaxL({f.dirs[i].l : i \in DOMAIN f.dirs})
+    \* (since fix F25 the max level is that of the directives in force: a replaced directive no longer counts)
+    [] f.k = "targets" -> MaxL({f.dirs[i].l : i \in {j \in DOMAIN f.dirs : \A k \in DOMAIN f.dirs : k > j => f.dirs[k].t # f.dirs[j].t}})
     [] f.k = "fn"      -> f.hint
     [] f.k = "dyn"     -> f.hint
     [] f.k = "mixed"   -> NoHint
